@@ -32,6 +32,8 @@ checks = [
  dag("C17", "deterministic simulation: responder output observed through a mirror of the wire format; small receive buffers injected", "Sent commands are committed at the responder, indexes increase by one, sessions end, clean in-order responses are always addable."),
  dag("C18", "deterministic simulation with transport corruption: byte-level and field-aware mutations, truncation, misdelivery, duplication on live sessions under catch_unwind", "No panic on any delivered buffer; command slices inside the buffer; requester accepts only its own session and the next index."),
  dag("C19", "deterministic simulation: hello decisions evaluated between arbitrary replica pairs reached by sync, actions and lazy merges", "'No sync' implies committed(peer) subset of committed(self); one history class is a recorded known finding (merge-only difference)."),
+ dag("C15", "deterministic simulation with crash injection: real FileManager/Writer/Reader of storage/linear/libc on a simulated disk below aranya-libc's system calls (page cache vs durable image, sector-atomic order-respecting loss of un-synced writes, torn multi-sector writes, lost length extension, EINTR, short I/O, EIO, ENOSPC, crash inside any system call, crash during the first commit after a recovery)", "After every crash and reopen the replica must expose the last completed commit or a commit that was in progress (heads = frontier of that command set; all commands, ancestry answers and facts readable and equal to the model), or an error only when no commit had completed; the run then continues on the recovered store under all other oracles."),
+ dag("C21", "deterministic simulation with an in-situ refinement monitor: every traversal-queue operation performed by searches, braids and sync during simulated runs is reported by a guarded hook with the queue's logical pre-state; each transition and each drain callback is checked against the documented rules transcribed over multisets", "Pop removes an entry of highest max cut; push keeps one entry per segment with the highest cut and the documented covered/uncovered merge; cover_up_to arithmetic; drain_above/drain_all remove exactly the entries above the threshold and hand exactly the uncovered ones to the callback. Only operation sequences the real callers produce are explored."),
  dag("C20", "deterministic simulation: peer-cache invariants after every update plus an exact delta rule per recorded address, including bogus and uncommitted addresses", "At most ten entries, each committed locally at the recorded location, pairwise non-ancestors; update rule exact."),
 ]
 
@@ -45,6 +47,19 @@ checks += [
  simple("C33", "mirisim", "Miri as the simulator: seeded clone/read/hash/convert/drop workloads over shared heap Text on 2-3 threads, one schedule per Miri seed (pre-emption, weak memory, race/UAF/leak detection)",
         "Any Miri error (data race, use-after-free, double free, leak) on a seeded schedule is a violation with (workload, seed) replay.",
         "Sampled schedules (64 quick / 1024 thorough), <= 3 threads; trusts Miri's memory model.", "DESIGN.md section 6 (C33)"),
+]
+
+
+AFC_NOTE = "Trusted: shuttle 0.9.3 as the scheduler (sequentially consistent interleavings at the granularity of the hook points placed before every atomic operation, lock, futex call and list mutation), the simulated futex, and the per-property reference models in /verif/sim/afcsim/src. Real code: aranya-fast-channels Client, shm::{ReadState,WriteState} on real POSIX shared memory, memory::State, the crate's futex Mutex, Lender/Loan, real aranya-crypto AFC keys. Weak-memory effects are outside shuttle's reach for the shared-memory tables. Sampled search: a clean batch is evidence, not proof."
+def afc(pid, technique, text):
+    return dict(property_id=pid, engine="afcsim", technique=technique, text=text, note=AFC_NOTE, design=f"DESIGN.md section 6 ({pid})")
+checks += [
+ afc("C39", "deterministic simulation of a lossy, corrupting transport between two real AFC clients: seeded truncation to every length, bit flips, extension, duplication, reordering, delivery to another channel or label; copying and in-place interfaces under catch_unwind", "Intact deliveries open to the sealed plaintext, label and sequence number; everything else returns an error without panicking and leaves the output buffer zeroed."),
+ afc("C40", "deterministic simulation: shuttle-scheduled reader and writer threads over the real shared-memory state (seeded random and PCT schedules, injected seal failures, concurrent add/remove forcing cache invalidation); history check of sequence numbers per seal context", "Successful seals of one context carry 0,1,2,... and open at the peer with that number; the in-memory state never lends a second live seal context."),
+ afc("C41", "deterministic simulation: shuttle-scheduled writer and clients over both state implementations; real-time order by global event number (removal return precedes operation invoke)", "An operation that starts after a removal returned fails with not-found on a removed channel; surviving channels keep working; removed ids never reappear."),
+ afc("C42", "deterministic simulation: shuttle-scheduled single writer and readers over the real shared-memory tables with a set-sequence model (every reader snapshot must be a set the writer produced)", "Reader-visible tables are writer-produced sets; both copies agree at writer quiescence; ids never reused; out-of-space exactly when full."),
+ afc("C43", "deterministic simulation: 2-3 shuttle-scheduled threads on the real sys_lock/sys_unlock paths with a simulated futex that injects spurious wake-ups and wake-before-wait orders; deadlock and step-bound detection by the scheduler", "Never two holders; no deadlock or starvation within the step bound on any explored schedule."),
+ afc("C44", "deterministic simulation: shuttle-scheduled threads racing lend, access through the loan, removal and drops in every order on the real Lender/Loan (exported under the guard) and through memory::State; drop-counting payload", "At most one live loan; access fails after the entry is removed; the shared data is dropped exactly once after both sides are gone."),
 ]
 
 # Properties served by engines that are not finished yet are listed here and moved to `checks` when ready.
